@@ -130,6 +130,11 @@ inductive FEv where
   | fcall (g : Nat)
   | ferr (c : Nat)
   | fret (g : Nat)
+  /-- message `i` enters the handler queue of the receiving connection (`acceptRequest`, the instant before
+  `handlerQueue = append(handlerQueue, req)`; one reader goroutine per connection).  The model has one FIFO
+  between `write` and `disp`; what leaves it in the order `disp` entered it in this order, so the model's
+  counterpart of the order of these events is the order of its `disp` labels. -/
+  | enq (i : Nat)
 deriving DecidableEq, Repr
 
 def FLabel.vis : FLabel → Option FEv
@@ -150,15 +155,16 @@ def Ev.label : Ev → Label
   | .beg i => .start i
   | .fin i => .fin i
 
-def FEv.label : FEv → FLabel
-  | .msg e => .msg e.label
-  | .fcall g => .fcall g
-  | .ferr c => .ferr c
-  | .fret g => .fret g
+def FEv.label : FEv → Option FLabel
+  | .msg e => some (.msg e.label)
+  | .fcall g => some (.fcall g)
+  | .ferr c => some (.ferr c)
+  | .fret g => some (.fret g)
+  | .enq _ => none
 
 /-- The fan-out discipline alone, on what is observed: every label of the discipline is visible, so the
 observed log obeys it iff it is a run of the family whose pairs accept everything. -/
 def fanDiscipline (t : Topo) (evs : List FEv) : Bool :=
-  (frun (fun s _ => some s) t finit (evs.map FEv.label)).isSome
+  (frun (fun s _ => some s) t finit (evs.filterMap FEv.label)).isSome
 
 end Order
